@@ -440,6 +440,7 @@ def defEntry (cfg : Config) (w : World) (c : ClassId) (src : ClassSrc) : Option 
   match alookup c w.classes with
   | some _ => none
   | none =>
+    if !refsDefined w.classes src.fields then none else
     match lookupParent w.classes src.parent with
     | none => none
     | some pe => if baseSigClash w.flags src pe then none else some (elabClass cfg w src pe)
@@ -449,6 +450,7 @@ def failWorld (cfg : Config) (w : World) (c : ClassId) (src : ClassSrc) : World 
   match alookup c w.classes with
   | some _ => w
   | none =>
+    if !refsDefined w.classes src.fields then w else
     match lookupParent w.classes src.parent with
     | none => w
     | some _ => bodyW cfg w src
@@ -465,13 +467,16 @@ theorem defineW_eq (cfg : Config) (w : World) (c : ClassId) (src : ClassSrc) :
   | some _ => rfl
   | none =>
     simp only
-    cases lookupParent w.classes src.parent with
-    | none => rfl
-    | some pe =>
-      simp only
-      by_cases hb : baseSigClash w.flags src pe = true
-      · simp [hb]
-      · simp [hb, defWorld]
+    by_cases hr : refsDefined w.classes src.fields = true
+    · simp only [hr, Bool.not_true, Bool.false_eq_true, if_false]
+      cases lookupParent w.classes src.parent with
+      | none => rfl
+      | some pe =>
+        simp only
+        by_cases hb : baseSigClash w.flags src pe = true
+        · simp [hb]
+        · simp [hb, defWorld]
+    · simp [hr]
 
 theorem failWorld_classes (cfg : Config) (w : World) (c : ClassId) (src : ClassSrc) :
     (failWorld cfg w c src).classes = w.classes := by
@@ -480,7 +485,9 @@ theorem failWorld_classes (cfg : Config) (w : World) (c : ClassId) (src : ClassS
   | some _ => rfl
   | none =>
     simp only
-    cases lookupParent w.classes src.parent <;> rfl
+    split
+    · rfl
+    · cases lookupParent w.classes src.parent <;> rfl
 
 theorem failWorld_flags (cfg : Config) (w : World) (c : ClassId) (src : ClassSrc) :
     (failWorld cfg w c src).flags = w.flags := by
@@ -489,7 +496,9 @@ theorem failWorld_flags (cfg : Config) (w : World) (c : ClassId) (src : ClassSrc
   | some _ => rfl
   | none =>
     simp only
-    cases lookupParent w.classes src.parent <;> rfl
+    split
+    · rfl
+    · cases lookupParent w.classes src.parent <;> rfl
 
 theorem good_bodyW {cfg : Config} {W} (hW : cfg.wrapperByName = true → NoClashW W) {w : World}
     (g : Good cfg W w) (src : ClassSrc) (hsub : ∀ q ∈ wrapsOfFields src.fields, q ∈ W) :
@@ -504,9 +513,11 @@ theorem good_failWorld {cfg : Config} {W} (hW : cfg.wrapperByName = true → NoC
   | some _ => exact g
   | none =>
     simp only
-    cases lookupParent w.classes src.parent with
-    | none => exact g
-    | some _ => exact good_bodyW hW g src hsub
+    split
+    · exact g
+    · cases lookupParent w.classes src.parent with
+      | none => exact g
+      | some _ => exact good_bodyW hW g src hsub
 
 theorem defEntry_fresh {cfg : Config} {w : World} {c : ClassId} {src : ClassSrc} {e : Entry}
     (h : defEntry cfg w c src = some e) : alookup c w.classes = none ∧ e.serializer = none := by
@@ -515,15 +526,18 @@ theorem defEntry_fresh {cfg : Config} {w : World} {c : ClassId} {src : ClassSrc}
   | some _ => simp [hl] at h
   | none =>
     simp only [hl] at h
-    cases hp : lookupParent w.classes src.parent with
-    | none => simp [hp] at h
-    | some pe =>
-      simp only [hp] at h
-      by_cases hb : baseSigClash w.flags src pe = true
-      · simp [hb] at h
-      · simp only [hb, Bool.false_eq_true, if_false, Option.some.injEq] at h
-        subst h
-        exact ⟨rfl, rfl⟩
+    by_cases hr : refsDefined w.classes src.fields = true
+    · simp only [hr, Bool.not_true, Bool.false_eq_true, if_false] at h
+      cases hp : lookupParent w.classes src.parent with
+      | none => simp [hp] at h
+      | some pe =>
+        simp only [hp] at h
+        by_cases hb : baseSigClash w.flags src pe = true
+        · simp [hb] at h
+        · simp only [hb, Bool.false_eq_true, if_false, Option.some.injEq] at h
+          subst h
+          exact ⟨rfl, rfl⟩
+    · simp [hr] at h
 
 theorem defineW_flags (cfg : Config) (w : World) (c : ClassId) (src : ClassSrc) :
     (defineW cfg w c src).1.flags = w.flags := by
@@ -632,6 +646,28 @@ theorem fieldSimple_congr {w w' : World} {T : ClassId → Bool} (hst : ∀ d, T 
     · rw [h1, h2]
       simp only [(stable_eq h3).1]
 
+theorem all_congr_mem {α : Type} (p q : α → Bool) : ∀ (l : List α), (∀ x ∈ l, p x = q x) → l.all p = l.all q
+  | [], _ => rfl
+  | x :: l, h => by
+    simp only [List.all_cons]
+    rw [h x (by simp), all_congr_mem p q l (fun y hy => h y (by simp [hy]))]
+
+theorem refsDefined_congr {w w' : World} {T : ClassId → Bool}
+    (hst : ∀ d, T d = true → lookS w d = lookS w' d) (fs : List FieldSpec)
+    (hrefs : ∀ f ∈ fs, ∀ r, f.kind = .ref r → T r = true) :
+    refsDefined w.classes fs = refsDefined w'.classes fs := by
+  unfold refsDefined
+  apply all_congr_mem
+  intro f hf
+  cases hk : f.kind with
+  | prim _ => rfl
+  | wrap _ _ => rfl
+  | ref r =>
+    simp only
+    rcases lookS_cases (hst r (hrefs f hf r hk)) with ⟨h1, h2⟩ | ⟨e, e', h1, h2, _⟩
+    · rw [h1, h2]
+    · rw [h1, h2]; rfl
+
 theorem lookupParent_congr {w w' : World} {T : ClassId → Bool}
     (hst : ∀ d, T d = true → lookS w d = lookS w' d) (parent : Option Parent)
     (hp : ∀ p, parent = some p → T p.cid = true) :
@@ -690,15 +726,19 @@ theorem defEntry_congr {cfg : Config} {W} (hW : cfg.wrapperByName = true → NoC
   unfold defEntry
   rcases lookS_cases (s.stab c hT) with ⟨h1, h2⟩ | ⟨e, e', h1, h2, _⟩
   · simp only [h1, h2]
-    rw [lookupParent_congr s.stab src.parent (deps_parent hd), s.flags]
-    cases lookupParent w'.classes src.parent with
-    | none => rfl
-    | some pe =>
-      simp only
-      by_cases hb : baseSigClash w'.flags src pe = true
-      · simp [hb]
-      · simp only [hb, Bool.false_eq_true, if_false, Option.map_some]
-        exact congrArg some (elab_stable_congr (own_congr hW s.good s.good' s.stab src hsub (deps_refs hd)) s.flags)
+    rw [lookupParent_congr s.stab src.parent (deps_parent hd), s.flags,
+        refsDefined_congr s.stab src.fields (deps_refs hd)]
+    by_cases hr : refsDefined w'.classes src.fields = true
+    · simp only [hr, Bool.not_true, Bool.false_eq_true, if_false]
+      cases lookupParent w'.classes src.parent with
+      | none => rfl
+      | some pe =>
+        simp only
+        by_cases hb : baseSigClash w'.flags src pe = true
+        · simp [hb]
+        · simp only [hb, Bool.false_eq_true, if_false, Option.map_some]
+          exact congrArg some (elab_stable_congr (own_congr hW s.good s.good' s.stab src hsub (deps_refs hd)) s.flags)
+    · simp [hr]
   · simp only [h1, h2, Option.map_none]
 
 theorem sim_define_both {cfg : Config} {W} (hW : cfg.wrapperByName = true → NoClashW W) {T : ClassId → Bool}
